@@ -18,7 +18,7 @@ EXPLANATION = (
     "(R3) CUT-AGREE - cycles_check and check_recursion cut at the same tag set; the fix-point flag is computed before "
     "the collected edges are drained; an SCC without a cut point is an error. Finiteness for all graphs and 'one "
     "instantiation is emitted once' are value-level and not decided.")
-EXPLANATION += ' Further clauses: (R4) GRAPH-COMPLETE - every use adds an edge to the graph handed to cycles_check, Context::new only in eval::eval; (R5) RECURSION-IS-SCHEMA - every cast that accepts all schema values accepts the recursion marker and a named reference. R2 requires the innermost scope id (last / next_back / rev().next()); R4 requires that only the lookup result and the definition kind decide whether a dependency edge is added; (R6) COMPONENT-HELD (shared C03.R1).'
+EXPLANATION += " Further clauses: (R4) GRAPH-COMPLETE - every use adds an edge to the graph handed to cycles_check, Context::new only in eval::eval; (R5) RECURSION-IS-SCHEMA - every cast that accepts all schema values accepts the recursion marker and a named reference. R2 requires the innermost scope id (last / next_back / rev().next()); R4 requires that only the lookup result and the definition kind decide whether a dependency edge is added; (R6) COMPONENT-HELD (shared C03.R1). R4 also requires the graph builder's index to be keyed by the whole External; (R7) INNERMOST (shared C08.R1)."
 TECHNIQUE = "static analysis: MIR dominance / must-pass-through path rules + predicate agreement by abstract interpretation"
 
 
